@@ -231,6 +231,10 @@ pub const ORDERS: [Order; 2] = [Order::RowMajor, Order::ColMajor];
 
 /// shapes beyond the size thresholds at which an implementation might switch algorithms (1024,
 /// 4096 elements): non-square, not multiples of the thresholds, long single vectors
+/// one shape beyond the sizes (32768, 65536 elements) at which an implementation might hand the work
+/// to a thread pool or a blocked algorithm
+pub const VERY_LARGE: [(usize, usize); 1] = [(257, 300)];
+
 pub const LARGE: [(usize, usize); 6] = [(64, 65), (63, 65), (3, 1400), (1, 4099), (4099, 1), (33, 32)];
 
 /// Build, through the public API only, the matrix of the given order and logical shape whose
